@@ -185,6 +185,14 @@ def o_path_nodes(case):
     pub = nodes[j].public_copy()
     rpub = refs[j].public()
     compare("public-copy", pub, rpub, vers, "public_copy() at depth %d of %s (seed %s, %s)" % (j, s, case["seed"], code))
+    # a watch-only node has no private serialisation: asking for one is refused, never answered with other text
+    for name, f in (("hwif(as_private=True)", lambda: pub.hwif(as_private=True)), ("as_text(as_private=True)", lambda: pub.as_text(as_private=True)),
+                    ("serialize(as_private=True)", lambda: pub.serialize(as_private=True))):
+        try:
+            got = f()
+        except PublicPrivateMismatchError:
+            continue
+        _bad("bip32:public:private-text-of-a-public-node", "public_copy().%s returned %r instead of raising PublicPrivateMismatchError" % (name, got))
     p_step = pub
     for d in range(j, len(path)):
         i = path[d][0]
